@@ -377,6 +377,13 @@ func (fx *FuncCtx) specBinary(env *specEnv, x *ast.BinaryExpr) sval {
 		}
 		fx.unsupportedf("spec: binary %s on %s,%s", x.Op, valString(l.v), valString(r.v))
 	}
+	if a.Sort == SInt && (b.Sort == SF64 || b.Sort == SF32) {
+		// integer literal on the left of a float operand
+		if n, ok := isIntLit(a); ok {
+			a = fx.floatConst(float64(n), b.Sort)
+			l.t = r.t
+		}
+	}
 	switch a.Sort {
 	case SInt:
 		if b.Sort != SInt {
